@@ -469,10 +469,7 @@ def keyword_like_names(ctx):
                                   f'(printed as `{back}`)', dict(case, text=text, printed=back))
                     break
         finally:
-            del held
-            b._ref = {k: (0 if k != 1 else b._ref[1]) for k in b._ref}
-            if not autoref:
-                b._ref[1] = 0
+            held.clear()
 
 
 def run(ctx):
